@@ -515,7 +515,17 @@ Section Eval.
     | EPath segs =>
         match ext (String.concat "::" segs) [] with
         | Some v => (en, ONorm v)
-        | None => (en, ONorm (VCtor (last_seg segs) []))
+        | None =>
+            (* an associated constant printed by rs2v (a parameterless function of that name among
+               the known functions) evaluates to its value; any other path is a unit-like variant *)
+            match lookup (String.concat "::" segs) fns with
+            | Some f =>
+                match fn_params f with
+                | [] => call_fn en f None []
+                | _ => (en, ONorm (VCtor (last_seg segs) []))
+                end
+            | None => (en, ONorm (VCtor (last_seg segs) []))
+            end
         end
     | ERef e' => ev en e'
     | EUnary "*" e' => ev en e'
